@@ -95,6 +95,13 @@ def cases(tier, seed):
         for mode in ("inline", "deferred", "noise"):
             out.append({"part": "strings", "lens": [a, min(a + 9, N)], "mode": mode, "seed": seed})
     out.append({"part": "access"})
+    # every code point as first and as last character of a string (quick: the ranges where encodings have special cases)
+    if tier == "quick":
+        rng = [(0x01, 0x180), (0x2000, 0x2070), (0x3000, 0x3002), (0xD7F0, 0xD800), (0xE000, 0xE010), (0xFE00, 0x10000)]
+    else:
+        rng = [(a, min(a + 0x800, 0x10000)) for a in range(0, 0x10000, 0x800)]
+    for lo, hi in rng:
+        out.append({"part": "codepoints", "range": [max(lo, 1), hi]})
     # (b) schedules: partition by the position of the first deviation
     P = 1 if tier == "quick" else 2
     for lo in range(0, 400, 8 if tier == "quick" else 4):
@@ -236,6 +243,20 @@ def run_strings(case, st):
             if L in (0, 4, 5, 7, 8) or L % 7 == 0:
                 st.nontrivial.add((tname, L, case["mode"]))
     st.outcome("strings ok")
+
+
+def run_codepoints(case, st):
+    p = Pair("inline")
+    cps = [case["cp"]] if "cp" in case else [c for c in range(*case["range"]) if not 0xD800 <= c <= 0xDFFF]
+    for cp in cps:
+        ch = chr(cp)
+        for pos, s in (("first", ch + "Label"), ("last", "Label" + ch), ("only", ch)):
+            st.nontrivial.add(("cp", cp, pos))
+            rc = {"part": "codepoints", "cp": cp, "range": [cp, cp + 1]}
+            roundtrip(p, st, rc, "UNICODE_STRING", s, s.encode("utf-16-le"), by="index", sigkind=f"UNICODE_STRING:codepoint-{pos}")
+            if cp < 128:
+                roundtrip(p, st, rc, "VISIBLE_STRING", s, s.encode("ascii"), by="index", sigkind=f"VISIBLE_STRING:codepoint-{pos}")
+    st.outcome("code points ok")
 
 
 def run_access(case, st):
@@ -534,7 +555,7 @@ def run_inline_threads(case, st):
 def run_case(case, st):
     if case["part"] == "inline-threads":
         return run_inline_threads(case, st)
-    {"ints": run_ints, "other": run_other, "strings": run_strings, "access": run_access, "sched": run_sched,
+    {"codepoints": run_codepoints, "ints": run_ints, "other": run_other, "strings": run_strings, "access": run_access, "sched": run_sched,
      "late-dup": run_latedup}[case["part"]](case, st)
 
 
